@@ -372,6 +372,11 @@ chunk* small_free_memory_list::find_chunk_impl(unsigned char* node, chunk_base* 
         else if ((c = from_chunk(last, node, node_size_)) != nullptr)
             return c;
 
+        // the cursors met: everything in between is checked
+        // (comparing addresses alone is not enough, both can sit on the proxy node)
+        if (first == last || first->next == last)
+            break;
+
         first = first->next;
         last  = last->prev;
     } while (!greater(first, last));
